@@ -32,10 +32,19 @@ const (
 // ---- reference: names a model node refers to ------------------------------------------
 
 func c05IsTypeLit(lit string) (string, bool) {
-	if strings.HasPrefix(lit, `"@`) {
-		return ref.Unq(lit), true
+	// a name may be spelled with JSON escapes ("\u0040a"): what counts is the decoded text
+	if strings.HasPrefix(lit, `"`) {
+		if dec := ref.Unq(lit); strings.HasPrefix(dec, "@") {
+			return dec, true
+		}
 	}
 	return "", false
+}
+
+// c05Esc spells a type name with JSON escapes: the '@' and the last character as \uXXXX.
+func c05Esc(name string) string {
+	last := name[len(name)-1]
+	return fmt.Sprintf(`"\u0040%s\u%04x"`, name[1:len(name)-1], last)
 }
 
 // c05Refs returns, in source order and without repetitions, the user type
@@ -1058,6 +1067,15 @@ func c05Positions() []c05Position {
 			return gen.Null().R("nullable", "true").RVal("or", gen.ListOf(set(gen.Rule{Name: "type", Val: lit(q(t))}), lit(`"integer"`)))
 		}},
 		{name: "value-shortcut-nullable", site: func(t, o string) *gen.Node { return gen.Ref(t).R("nullable", "true") }},
+		{name: "type-escaped-name", site: func(t, o string) *gen.Node { return gen.Str("abc").R("type", c05Esc(t)) }},
+		{name: "or-item-escaped-name", site: func(t, o string) *gen.Node {
+			return gen.Str("abc").RVal("or", gen.ListOf(lit(`"integer"`), lit(c05Esc(t))))
+		}},
+		{name: "or-set-type-escaped-name", site: func(t, o string) *gen.Node {
+			return gen.Str("abc").RVal("or", gen.ListOf(set(gen.Rule{Name: "type", Val: lit(c05Esc(t))}, gen.Rule{Name: "nullable", Val: lit("true")}), lit(`"integer"`)))
+		}},
+		{name: "allOf-escaped-name", targetObj: true, site: func(t, o string) *gen.Node { return gen.Obj().R("allOf", c05Esc(t)) }},
+		{name: "additionalProperties-escaped-name", site: func(t, o string) *gen.Node { return gen.Obj().R("additionalProperties", c05Esc(t)) }},
 		{name: "or-item-first", site: func(t, o string) *gen.Node {
 			return gen.Str("abc").RVal("or", gen.ListOf(lit(q(t)), lit(`"integer"`)))
 		}},
@@ -1750,7 +1768,7 @@ func init() {
 			"(1) UsedUserTypes() of the root text and of every type text on a fresh type-less object = the model's name set, no duplicates; the same set again from the built root before and after Check() under every registered subset. " +
 			"(2) For every one of the 2^k subsets of withheld definitions (withheld = registered nowhere): M = names reachable from the root through registered types that are not registered; M non-empty => Check() must fail with 1302 and its message must name a member of M; M empty => Check() must not fail with 1302. " +
 			"(3) the digest (verdict code, AST, example, used types, OpenAPI text) and the Check() message of a project must not change when 1-3 valid self-contained unused types are registered as well (all registered, and under one random subset). " +
-			"Workload: a complete grid of 21 reference positions (incl. type / or on a `null` example with nullable: true) x nesting depth 0-3 x 0-2 intermediate types x target with/without a reference of its own (all subsets each), look-alike traps, random acyclic projects biased to many references (1/5 under a random layout), and the repository test corpus for the duplicate / registration-independence sub-clauses. distinct_nontrivial = distinct projects that were valid subjects (hashed) + corpus texts with at least one used name.",
+			"Workload: a complete grid of 26 reference positions (incl. names spelled with JSON escapes; (incl. type / or on a `null` example with nullable: true) x nesting depth 0-3 x 0-2 intermediate types x target with/without a reference of its own (all subsets each), look-alike traps, random acyclic projects biased to many references (1/5 under a random layout), and the repository test corpus for the duplicate / registration-independence sub-clauses. distinct_nontrivial = distinct projects that were valid subjects (hashed) + corpus texts with at least one used name.",
 		MinNontrivialQuick: 20000, MinNontrivialThorough: 200000,
 		MaxInconclusiveFrac: 0.10,
 		Assumptions: []string{
